@@ -27,16 +27,16 @@ func runC12(c *eng.Ctx, thorough bool) {
 	c.Clause("R6", "C12.1")
 	if fv := c.P.Field("logical.Request.Storage"); fv != nil {
 		allowed := map[string]string{
-			"routing.(*Router).routeCommon":              "attaches the matched route entry's StorageView and clears it on exit",
-			"vault.(*Core).handleInlineAuth":             "copies the outer request's (nil at that point) storage into the synthetic login request",
-			"vault.(*Core).aliasNameFromLoginRequest":    "alias lookahead: storage of the matched auth mount (MatchingStorageByAPIPath)",
-			"vault.(*Core).doResolveRoleLocked":          "role resolution: storage of the matched auth mount (MatchingStorageByAPIPath)",
+			"routing.(*Router).routeCommon":                      "attaches the matched route entry's StorageView and clears it on exit",
+			"vault.(*Core).handleInlineAuth":                     "copies the outer request's (nil at that point) storage into the synthetic login request",
+			"vault.(*Core).aliasNameFromLoginRequest":            "alias lookahead: storage of the matched auth mount (MatchingStorageByAPIPath)",
+			"vault.(*Core).doResolveRoleLocked":                  "role resolution: storage of the matched auth mount (MatchingStorageByAPIPath)",
 			"vault.(*SystemBackend).handleRateLimitQuotasUpdate": "role resolution for quotas: storage of the matched auth mount",
-			"vault.(*SystemBackend).pathInternalOpenAPI":  "help request: no storage / mount's own",
-			"logical.StartTxStorage":                      "swaps in a transaction begun on the request's own storage (keeps the original for EndTxStorage)",
-			"logical.EndTxStorage":                        "restores the original storage",
-			"logical.(*Request).Copy":                      "n/a",
-			"vault.(*RollbackManager).attemptRollback":    "n/a",
+			"vault.(*SystemBackend).pathInternalOpenAPI":         "help request: no storage / mount's own",
+			"logical.StartTxStorage":                             "swaps in a transaction begun on the request's own storage (keeps the original for EndTxStorage)",
+			"logical.EndTxStorage":                               "restores the original storage",
+			"logical.(*Request).Copy":                            "n/a",
+			"vault.(*RollbackManager).attemptRollback":           "n/a",
 		}
 		n := 0
 		for _, w := range c.P.FieldWriters(fv) {
